@@ -210,6 +210,50 @@ func c06Gen(tier string, rng *rand.Rand, emit func(interface{})) {
 			emit(c06Case{Op: 0, N: n, P: F64(p)})
 		}
 	}
+	// (b') a light sweep over EVERY N above the exhaustive range (61..300 quick, ..1000 thorough), so that
+	// any size-dependent switch-over in Choose / BetaInc / the PMF is hit deterministically: two dyadic P
+	// per N (1/2 and one of 1/4, 3/8, 3/4, 7/8), PMF and CDF at a handful of k around N/2, around the mode
+	// and at the ends; likewise one hypergeometric (N, ~N/2, ~N/2) and one skewed one per N above 40 (80)
+	sweepTop := 300
+	if thorough {
+		sweepTop = 1000
+	}
+	around := func(ks []float64, c int) []float64 {
+		for d := -2; d <= 2; d++ {
+			ks = append(ks, float64(c+d))
+		}
+		return append(ks, float64(c)+0.5)
+	}
+	others := []float64{0.25, 0.375, 0.75, 0.875}
+	for n := 61; n <= sweepTop; n++ {
+		for _, p := range []float64{0.5, others[n%4]} {
+			mode := int(math.Floor(float64(n+1) * p))
+			ks := []float64{-1, 0, 1, float64(n - 1), float64(n), float64(n + 1)}
+			ks = around(around(ks, n/2), mode)
+			ks = around(ks, n/3)
+			emit(c06Case{Op: 0, N: n, P: F64(p), Ks: toF64s(ks)})
+		}
+	}
+	for n := maxN + 1; n <= sweepTop; n++ {
+		for v := 0; v < 2; v++ {
+			k, d := n/2, (n+1)/2
+			if v == 1 {
+				k, d = n/3+n%7, n-n/5
+			}
+			lo := d + k - n
+			if lo < 0 {
+				lo = 0
+			}
+			hi := d
+			if k < hi {
+				hi = k
+			}
+			mode := (d + 1) * (k + 1) / (n + 2)
+			ks := []float64{float64(lo - 1), float64(lo), float64(lo + 1), float64(hi - 1), float64(hi), float64(hi + 1)}
+			ks = around(around(ks, mode), (lo+hi)/2)
+			emit(c06Case{Op: 1, N: n, K: k, D: d, Ks: toF64s(ks)})
+		}
+	}
 	// (c) random larger N up to 1000
 	nb, nh := 24, 40
 	if thorough {
